@@ -525,7 +525,11 @@ def mode_params_rule(ctx, rule):
         # accepted forms: a pre-check (finite and integral) or - stronger - comparing the cast result with the values
         if isinstance(st, ast.If) and "dtype.kind == 'f'" in norm(st.test) and any(isinstance(r, ast.Raise) for r in ast.walk(st)):
             body = norm(ast.Module(body=st.body, type_ignores=[]))
-            if ('isfinite' in body and 'trunc' in body) or ("astype('float64') != data.values" in body and '[' not in body.split("astype('float64') != data.values")[1][:3]):
+            tail = body.split("astype('float64') != data.values")[1][:40] if "astype('float64') != data.values" in body else ''
+            # (a subscript after the comparison narrows it - except to "not the infinities" where a range test that takes
+            # int() of the extremes follows: int(inf) raises)
+            narrowed = '[' in tail[:3] and not (tail[1:].startswith('[~np.isinf(data.values)]') and "int(data.values.max())" in norm(f))
+            if ('isfinite' in body and 'trunc' in body) or ("astype('float64') != data.values" in body and not narrowed):
                 okc = True
     ctx.ob(rule, 'writer.convert:lossy-float-to-integer-cast-refused', okc,
            'astype(int) turns NaN into the smallest integer and cuts fractions off; reached when a float frame is appended to an integer column', wr.loc(f))
@@ -536,7 +540,7 @@ def mode_params_rule(ctx, rule):
         conj = [norm(v) for v in (st.test.values if isinstance(st, ast.If) and isinstance(st.test, ast.BoolOp) and isinstance(st.test.op, ast.And)
                                   else [st.test] if isinstance(st, ast.If) else [])]
         arm = ast.Module(body=st.body, type_ignores=[]) if isinstance(st, ast.If) else None
-        if not (isinstance(st, ast.If) and "dtype.kind in 'iu'" in conj and "out.dtype.kind in 'iu'" in conj
+        if not (isinstance(st, ast.If) and ("dtype.kind in 'iu'" in conj or "dtype.kind in 'iuf'" in conj) and "out.dtype.kind in 'iu'" in conj
                 and any(isinstance(r, ast.Raise) for r in ast.walk(arm))):
             continue
         inner = [x for x in ast.walk(arm) if isinstance(x, ast.If) and any(isinstance(r, ast.Raise) for r in ast.walk(x))]
